@@ -409,6 +409,10 @@ func init() {
 			// a send during which one of the file store's writes (index line, body, counter) fails
 			alpha = append(alpha, sessmc.EvSendFailingWrite(1), sessmc.EvSendFailingWrite(2), sessmc.EvSendFailingWrite(3))
 		}
+		if cfg.SQLTemplate != "" {
+			// SQL store: the same events fail the k-th statement-level call of the send (begin, insert, update, commit)
+			alpha = append(alpha, sessmc.EvSendFailingWrite(4))
+		}
 		return searchSpec{cfg: cfg, alphabet: alpha, mons: func() []sessmc.Monitor { return []sessmc.Monitor{&c02SeqMon{}} }, variant: "C02/seq"}
 	}
 }
